@@ -118,6 +118,12 @@ inductive GeoLoad (Geo : Type)
   | missing (g : Geo)     -- a database is returned together with ErrMissingDB
   | err
 
+/-- what the GeoIP loading step hands to the running station: a database if one was returned -/
+def GeoLoad.loaded {Geo : Type} : GeoLoad Geo → Option Geo
+  | .ok g => some g
+  | .missing g => some g
+  | .err => none
+
 variable {Sel Pol Geo : Type}
 
 /-- `RegistrationManager.OnReload`: the selector is replaced only if the subnets file loaded, the
